@@ -150,7 +150,9 @@ pub struct TwinMon {
 impl TwinMon {
     pub fn new(case: &FwCase) -> TwinMon {
         TwinMon {
-            twin: case.build().ok(),
+            // the twin runs on the other clock type: the clock implementation is
+            // not an input, so the two must agree call by call
+            twin: case.build_with(!case.std_clock()).ok(),
             clone: None,
             clone_at: case.extra["clone_at"].as_u64().unwrap_or(0) as usize,
             actions: 0,
